@@ -903,7 +903,15 @@ void run_case(vf::Case& c)
     x.desc       = show(x.shape, x.p->rank);
     x.h          = vf::mix(hash_arr(x.shape, x.p->rank, (VF_PLO + k * VF_PSTEP) * 131 + 23), x.group);
     x.nontrivial = x.p->rank > 0;
-    if (vf::want_sample("shape")) { vf::sample("shape", "extents<%s,%s> shape %s group %u: all %lld multi-indices through every access form", IDXN, x.p->name, x.desc.c_str(), x.group, product(x.shape, x.p->rank)); }
+    {
+        static char const* const gname[NGROUP] = {"mdspan<layout_left>", "mdspan<layout_right>", "mdspan<layout_stride>", "mdspan<layout_transpose<L>>", "mdarray<layout_left,BufVec>",
+            "mdarray<layout_right,BufVec>", "mdarray<layout_stride,BufVec>", "mdarray<left|right,etl::array>"};
+        std::string const lab = std::string("md:") + x.p->cls;
+        if ((x.p->rank == 0 || product(x.shape, x.p->rank) > 1) && vf::want_sample(lab.c_str())) {
+            vf::sample(lab.c_str(), "%s over extents<%s,%s> shape %s: every constructor form, then all %lld elements by address (== data()+model offset), read-through (cell holds its own index) and write-through",
+                gname[x.group], IDXN, x.p->name, x.desc.c_str(), product(x.shape, x.p->rank));
+        }
+    }
     crumb_op(x, std::string("extents<") + IDXN + ">", "setup:extents(OtherIndexTypes...):N=rank_dynamic"); // faults before an operation's own breadcrumb
     dispatch<Run>(k, x);
 }
